@@ -1,7 +1,8 @@
 (* C05 driver. One history per line:
    E <prefix> <S|C> <nn> {<name>}*nn <nev> {event}*nev
    events:  R <pattern> <method> | B <k> <path> <method> <who> <status> <id> <any> {<value>}*nn
-          | W <k> <code> | X <k> ret|rec|esc <id>
+          | W <k> <code> | F <k> | X <k> <who> <status> <id> <any> {<value>}*nn
+          | Y <k> ret|rec|esc <who> <status> <id> <any> {<value>}*nn
    Output: SPECFAIL/MISMATCH <line> and an INFO line with the index of the first event at which the specification fails. *)
 let () =
   let cases = ref 0 and reqs = ref 0 and specfail = ref 0 and mismatch = ref 0 and events = ref 0 in
@@ -21,22 +22,25 @@ let () =
           else if String.length w > 1 && w.[0] = 'r' && w.[1] >= '0' && w.[1] <= '9' then
             WRoute (nat_of_int (int_of_string (String.sub w 1 (String.length w - 1))))
           else WBad in
+        let read_obs () =
+          let w = next () in let st = int_of_string (next ()) in let id = next () in let any = next () in
+          let vals = List.init nn (fun _ -> bytes_of_hex (next ())) in
+          { co_who = who_of w; co_status = n_of_int st; co_id = bytes_of_hex id; co_any = bytes_of_hex any; co_vals = vals } in
         let evs = List.init nev (fun _ ->
           match next () with
           | "R" -> let p = next () in let m = next () in EvRegister (bytes_of_hex p, bytes_of_hex m)
           | "B" ->
-              let k = int_of_string (next ()) in let p = next () in let m = next () in let w = next () in
-              let st = int_of_string (next ()) in let id = next () in let any = next () in
-              let vals = List.init nn (fun _ -> bytes_of_hex (next ())) in
+              let k = int_of_string (next ()) in let p = next () in let m = next () in
+              let o = read_obs () in
               incr reqs;
-              EvBegin (nat_of_int k, bytes_of_hex p, bytes_of_hex m,
-                       { co_who = who_of w; co_status = n_of_int st; co_id = bytes_of_hex id;
-                         co_any = bytes_of_hex any; co_vals = vals })
+              EvBegin (nat_of_int k, bytes_of_hex p, bytes_of_hex m, o)
+          | "F" -> let k = int_of_string (next ()) in EvFlush (nat_of_int k)
           | "W" -> let k = int_of_string (next ()) in let c = int_of_string (next ()) in EvWrite (nat_of_int k, n_of_int c)
-          | "X" ->
+          | "X" -> let k = int_of_string (next ()) in let o = read_obs () in EvExit (nat_of_int k, o)
+          | "Y" ->
               let k = int_of_string (next ()) in
               let how = (match next () with "ret" -> Returned | "rec" -> Recovered | _ -> Escaped) in
-              let id = next () in EvExit (nat_of_int k, how, bytes_of_hex id)
+              let o = read_obs () in EvAfter (nat_of_int k, how, o)
           | t -> failwith ("unknown event " ^ t)) in
         incr cases; events := !events + nev;
         (match check_history prefix sequential names evs with
